@@ -36,6 +36,7 @@ def _check_own(ctx):
     c04bitmap.check_bitmap(ctx, prog, R)
     check_layout_agreement(ctx, prog, R)
     check_scan_compensation(ctx, prog, R)
+    check_scan_state(ctx, prog, R)
 
 
 def check_one_iterator(ctx, prog, R):
@@ -183,6 +184,71 @@ def check_counter(ctx, prog, R):
     ctx.check(len(sc) == 1, "scan-step", "one-scan-call", "expected one call of the bucket scanner in the iterator step", where=where(nxt))
     na = calls_to(prog, nxt, target_fn=R.need("NEXT_AT"))
     ctx.check(len(na) == 1, "scan-step", "chain-advance", "the iterator step does not follow the chain link of the current record", where=where(nxt))
+
+
+def _state_sources(prog, fn, op, at, R):
+    """Classify every origin of an operand of the iterator step as a named source, or None if unrecognised."""
+    out = set()
+    scan, nat = R.need("SCAN"), R.need("NEXT_AT")
+    for o in origins(prog, fn, op, at=at):
+        if o.kind == "param" and o.data == 1 and o.proj and o.proj[-1].startswith("f:DbXxxIterMut."):
+            out.add("field:" + o.proj[-1].split(".")[-1])
+        elif o.kind == "call" and is_call_to(prog, fn, o, scan):
+            out.add("scan" + "".join("." + p_[2:] for p_ in o.proj if p_.startswith("f:")))
+        elif o.kind == "call" and is_call_to(prog, fn, o, nat):
+            out.add("chain-next" + "".join("." + p_[2:] for p_ in o.proj if p_.startswith("f:")))
+        elif o.kind == "call" and (o.data.get("callee") or "").endswith(("::unwrap", "::expect")) and o.data.get("args"):
+            inner = _state_sources(prog, fn, o.data["args"][0], o.block, R)
+            sfx = "".join("." + p_[2:] for p_ in o.proj if p_.startswith("f:"))
+            out |= {(x + sfx) if x else None for x in inner}
+        else:
+            out.add(None)
+    return out
+
+
+def check_scan_state(ctx, prog, R):
+    """The iterator's cursor (bucket index, current key offset) only ever takes values produced by the scanner or by
+    following the chain link of the current record, and they are fed back into the right parameter."""
+    new, nxt = R.need("ITER_NEW"), R.need("ITER_NEXT")
+    rule = "scan-state"
+    allowed = {"DbXxxIterMut.key_offset": {"field:key_offset", "chain-next", "scan.1"},
+               "DbXxxIterMut.buckets_idx": {"field:buckets_idx", "scan.0"}}
+    need = {"DbXxxIterMut.key_offset": {"chain-next", "scan.1"}, "DbXxxIterMut.buckets_idx": {"scan.0"}}
+    for fld, ok_set in allowed.items():
+        seen = set()
+        sts = [(f, b, s_) for f, b, s_ in field_stores(prog, fld) if f.id != new.id]
+        ctx.check(all(f.id == nxt.id for f, b, s_ in sts) and sts, rule, fld.split(".")[-1] + ":writers",
+                  "the iterator field %s is stored outside the constructor and the scan step (%s)" % (fld, sorted({short(f.id) for f, b, s_ in sts})))
+        for f, b, s_ in sts:
+            if f.id != nxt.id:
+                continue
+            src = _state_sources(prog, f, s_["rhs"].get("a", {}), b, R) if s_["rhs"]["rv"] == "use" else {None}
+            seen |= src
+            ctx.check(src <= ok_set, rule, "%s:store-sources" % fld.split(".")[-1],
+                      "the iterator's %s is set from %s; only %s keep the traversal on the table's chains" % (fld.split(".")[-1], sorted(str(x) for x in src), sorted(ok_set)), where=where(f, b))
+        ctx.check(need[fld] <= seen, rule, "%s:advances" % fld.split(".")[-1], "the iterator's %s is never advanced from %s" % (fld.split(".")[-1], sorted(need[fld] - seen)), where=where(nxt))
+    for b, t in calls_to(prog, nxt, target_fn=R.need("SCAN")):
+        a1 = _state_sources(prog, nxt, t["args"][1], b, R)
+        a2 = _state_sources(prog, nxt, t["args"][2], b, R)
+        ctx.check(a1 == {"field:buckets_size"}, rule, "scan-arg:table-size", "the scanner is not given the iterator's table size (%s)" % sorted(str(x) for x in a1), where=where(nxt, b))
+        ctx.check(a2 <= {"field:buckets_idx", "scan.0"} and "field:buckets_idx" in a2, rule, "scan-arg:index",
+                  "the scanner is not resumed at the iterator's bucket index / the index it returned last (%s)" % sorted(str(x) for x in a2), where=where(nxt, b))
+    for b, t in calls_to(prog, nxt, target_fn=R.need("NEXT_AT")):
+        a1 = _state_sources(prog, nxt, t["args"][1], b, R)
+        ctx.check(a1 == {"field:key_offset"}, rule, "chain-arg", "the chain link is not read from the current record (%s)" % sorted(str(x) for x in a1), where=where(nxt, b))
+    for b, s_ in ret_agg_blocks(nxt, "core::option::Option", "Some"):
+        src = _state_sources(prog, nxt, s_["rhs"]["ops"][0], b, R)
+        ctx.check(bool(src) and src <= {"field:key_offset", "chain-next", "scan.1"}, rule, "yield", "the offset yielded is not the iterator's current key offset (%s)" % sorted(str(x) for x in src), where=where(nxt, b))
+    # the constructor starts at bucket 0 with no current record
+    for b, blk in enumerate(new.blocks):
+        for s_ in blk["stmts"]:
+            if s_["s"] == "assign" and s_["rhs"]["rv"] == "agg" and s_["rhs"].get("adt") == ITERMUT:
+                flds = s_["rhs"]["fields"]
+                for fld in ("buckets_idx", "key_offset"):
+                    o = leaf_origins(prog, new, s_["rhs"]["ops"][flds.index(fld)], at=b, terminal_only=True)
+                    zero = bool(o) and all((x.kind == "const" and x.data == 0) or
+                                           (x.kind == "call" and x.data.get("args") and const_val(x.data["args"][0]) == 0 and (x.data.get("callee") or "").endswith("::new")) for x in o)
+                    ctx.check(zero, rule, "init:" + fld, "a new iterator does not start with %s = 0" % fld, where=where(new, b))
 
 
 def _find_exprs(c, pred, out):
